@@ -15,8 +15,16 @@ def mode_wccn(p):
         X = np.vstack([rs.normal(size=(n, D)) * rs.uniform(0.5, 2) + rs.normal(size=D) * 3 for n in per])
         base = np.repeat(np.arange(K), per)
         ref = None
+        reused = WCCN()
         for labels, pinv in ((base, False), (base, True), (base * 7 + 5, False), (-base - 1, False), ((base + 1) * 10, True), ((K - 1 - base), False)):
-            w = WCCN(pinv=pinv).fit(X, labels)
+            if seed % 4 == 3 and not pinv:
+                # one estimator object used again and again (fitted on other data and applied in between)
+                X0 = rs.normal(size=(len(X), D)) * 4 + 7
+                reused.fit(X0, labels)
+                reused.transform([X0])
+                w = reused.fit(X, labels)
+            else:
+                w = WCCN(pinv=pinv).fit(X, labels)
             W = np.asarray(w.weights)
             Y = np.asarray(w.transform([X]))[0]
             Sw = np.zeros((D, D))
@@ -43,7 +51,13 @@ def mode_whitening(p):
         rs = np.random.RandomState(seed)
         D = rs.randint(1, 4)
         X = rs.normal(size=(D + 3 + rs.randint(0, 5), D)) @ rs.normal(size=(D, D)) + rs.normal(size=D) * 4
-        w = Whitening(pinv=bool(seed % 2)).fit(X)
+        w = Whitening(pinv=bool(seed % 2))
+        if seed % 3 == 2:
+            # the estimator object was used before: fitted on OTHER data and applied, then fitted again on X
+            X0 = rs.normal(size=(D + 4, D)) * 5 + 10
+            w.fit(X0)
+            w.transform(X0)
+        w.fit(X)
         Y = np.asarray(w.transform(X))
         if not close(Y.mean(axis=0), np.zeros(D), 1e-8) or not close(np.atleast_2d(np.cov(Y.T)), np.eye(D), 1e-7):
             return {"observed": np.atleast_2d(np.cov(Y.T)).tolist(), "what": "whitened training data do not have zero mean and identity covariance"}
